@@ -945,6 +945,11 @@ fn rand_utf8(rng: &mut StdRng, n: usize) -> Vec<u8> {
     let mut s: Vec<u8> = vec![];
     while s.len() < n {
         let room = n - s.len();
+        if rng.gen_bool(0.04) {
+            // NUL, control characters and blanks are text too (and the end of a string is where they get "cleaned up")
+            s.push([0u8, 0, 9, 10, 13, 32, 127][rng.gen_range(0..7)]);
+            continue;
+        }
         if rng.gen_bool(0.2) {
             let m = MB[rng.gen_range(0..MB.len())].as_bytes();
             if m.len() <= room {
@@ -953,6 +958,12 @@ fn rand_utf8(rng: &mut StdRng, n: usize) -> Vec<u8> {
             }
         }
         s.push(b" !#+,;<=>\\\"abcdefghijklmnopqrstuvwxyzABCXYZ0123456789=,"[rng.gen_range(0..53)]);
+    }
+    if n > 0 && rng.gen_bool(0.08) {
+        let last = s.len() - 1;
+        if s[last] < 0x80 {
+            s[last] = [0u8, 32, 10][rng.gen_range(0..3)];
+        }
     }
     s
 }
